@@ -111,6 +111,10 @@ def sym_isinstance(obj, cls):
     return builtins.isinstance(obj, cls)
 
 
+def _quiet_print(*a, **k):
+    """evo's progress output (print) is dropped"""
+
+
 class _Finder(importlib.abc.MetaPathFinder, importlib.abc.Loader):
     def __init__(self, facades, extra_globals):
         self.facades = facades
@@ -147,6 +151,7 @@ class _Finder(importlib.abc.MetaPathFinder, importlib.abc.Loader):
         g["float"] = sym_float
         g["int"] = sym_int
         g["round"] = sym_round
+        g["print"] = _quiet_print
         g.update(self.extra)
         exec(code, g)
 
